@@ -762,5 +762,8 @@ def run(ctx):
     ctx.extra["cli_rewrite_during_group_run_conclusive"] = got
     if got == 0:
         raise RuntimeError("the rewrite-during-group-run scenario could not be placed inside the window in %d attempts" % tries)
+    # groups that span several file systems whose files share inode NUMBERS (fresh tmpfs instances, private mount namespace)
+    from . import mounts_rt
+    mounts_rt.stale_member_colliding_inodes_check(ctx, ctx.pick(8, 60))
     report(ctx, fails, model_bin, scratch)
     ctx.extra["exhaustive"] = False
